@@ -144,7 +144,15 @@ def _writer_fn(ctx):
 
 
 def rule_ord(ctx) -> None:
-    ev = Events(ctx, _classify(ctx), depth=3)
+    # `while <bytes left>: n = f.write(view); view = view[n:]`: leaving the loop through its condition means nothing is left to
+    # write (also for empty data) - the exit branch counts as the completed WRITE, in the writer and in helpers it calls
+    def loop_exit_write(f, n):
+        if n.kind == "branch" and n.label == "F" and isinstance(n.stmt, ast.While) and \
+                any(isinstance(c, ast.Call) and isinstance(c.func, ast.Attribute) and c.func.attr == "write" for b in n.stmt.body for c in ast.walk(b)):
+            return ["WRITE"]
+        return []
+
+    ev = Events(ctx, _classify(ctx), depth=3, extra=loop_exit_write)
     for fn in _writer_fn(ctx):
         cfg = ctx.cfg(fn)
         # unbuffered raw handle => flush is a no-op; otherwise FLUSH is required before FSYNC
@@ -155,16 +163,8 @@ def rule_ord(ctx) -> None:
                 unbuffered = False
 
         ORDER = ["NONE", "CREATED", "WRITTEN", "FLUSHED", "FSYNCED", "REPLACED"]
-        # `while <bytes left>: n = f.write(view); view = view[n:]`: leaving the loop through its condition means nothing is
-        # left to write (also for empty data) - the exit branch counts as the completed WRITE
-        write_loops = {id(st) for st in ast.walk(fn.node) if isinstance(st, ast.While)
-                       and any(isinstance(c, ast.Call) and isinstance(c.func, ast.Attribute) and c.func.attr == "write" for b in st.body for c in ast.walk(b))}
-        loop_exits = {n for n in cfg.nodes if n.kind == "branch" and n.label == "F" and n.stmt is not None and id(n.stmt) in write_loops}
-
         def step(n, s, lab, t):
-            evs = ev.at(fn, n) if n.kind not in ("branch", "join") else []
-            if n in loop_exits and lab != "exc":
-                evs = list(evs) + ["WRITE"]
+            evs = ev.at(fn, n) if n.kind != "join" else []
             if lab == "exc":
                 return [s]  # the raising statement did not complete
             for e in evs:
@@ -499,16 +499,18 @@ def rule_raw_writes(ctx) -> None:
     reports success: the destination then holds neither the old nor the new content."""
     from .. import hazards
     n_raw = 0
+    n_handles = 0
     for mn in (ATOMIC, "clematis.engine.snapshot", "clematis.io.log"):
         for fn in ctx.prog.module(mn).funcs.values():
-            n_raw += sum(1 for x in walk_no_defs(fn.node) if isinstance(x, ast.Call) and (dotted(x.func) or "") in ("open", "io.open")
-                         and any(k.arg == "buffering" and isinstance(k.value, ast.Constant) and k.value.value == 0 for k in x.keywords) and "w" in (const_str(x.args[1]) if len(x.args) > 1 else "") )
+            opens = [x for x in walk_no_defs(fn.node) if isinstance(x, ast.Call) and (dotted(x.func) or "") in ("open", "io.open") and len(x.args) > 1 and any(ch in (const_str(x.args[1]) or "") for ch in "wax")]
+            n_handles += len(opens)
+            n_raw += sum(1 for x in opens if any(k.arg == "buffering" and isinstance(k.value, ast.Constant) and k.value.value == 0 for k in x.keywords))
             for o, w in hazards.raw_write_unchecked(ctx, fn):
                 ctx.violation("C08.ORD", ctx.okey(f"{fn.qual}/raw-write-completes"), fn.loc(w),
                               f"`{src(w)[:40]}` writes through a handle opened with buffering=0 and drops the returned byte count: a short write (full disk, RLIMIT_FSIZE) leaves a truncated "
                               "temp file that is then fsynced and replaced over the destination while the writer reports success")
-    ctx.floor("C08.ORD", "unbuffered write handles in the atomic writer", n_raw, 1)
-    ctx.holds("C08.ORD", "atomic-writers/raw-writes-complete", "clematis/io/atomic.py", f"{n_raw} unbuffered write handle(s): every write's byte count is consumed (loop until all written); "
+    ctx.floor("C08.ORD", "write handles opened by the atomic writer / snapshot / log modules", n_handles, 2)
+    ctx.holds("C08.ORD", "atomic-writers/raw-writes-complete", "clematis/io/atomic.py", f"{n_handles} write handle(s), {n_raw} unbuffered: every raw write's byte count is consumed (loop until all written); "
               + hazards.controls(ctx, "clematis.engine.health", ["io"]))
 
 
